@@ -185,6 +185,9 @@ func genHostile(t *rapid.T) HostileCase {
 const inconclusiveMark = "VERIF-INCONCLUSIVE"
 
 // runHostile feeds the stream; returns a violation, or nil. accepted = #nodes accepted by Add.
+// hostileWatchdog: a hostile stream has at most a few dozen nodes and is processed in microseconds
+var hostileWatchdog = 60 * time.Second
+
 func runHostile(c HostileCase) (v *Violation, accepted int, committed bool, hung bool) {
 	done := make(chan struct{})
 	db := dbm.NewMemDB()
@@ -221,7 +224,7 @@ func runHostile(c HostileCase) (v *Violation, accepted int, committed bool, hung
 	}()
 	select {
 	case <-done:
-	case <-time.After(60 * time.Second):
+	case <-time.After(hostileWatchdog):
 		return nil, accepted, false, true
 	}
 	if v != nil {
@@ -266,7 +269,15 @@ func TestC10Hostile(t *testing.T) {
 		c := genHostile(rt)
 		v, accepted, committed, hung := runHostile(c)
 		if hung {
-			rt.Fatalf("%s importer did not finish within 60 s (machine load or a hang); case %s", inconclusiveMark, hashOf(c))
+			// load or a hang? the same stream once more, with three times the patience: a second timeout is a hang
+			// ("the importer never panics or hangs"), a completed run was machine load
+			hostileWatchdog = 180 * time.Second
+			v, accepted, committed, hung = runHostile(c)
+			hostileWatchdog = 60 * time.Second
+			if hung {
+				reportViolation(rt, "C10", c, &Violation{Prop: "C10", Obs: "import.hang", Msg: "Add/Commit/Close on this stream did not return within 60 s and, repeated, within 180 s"})
+			}
+			Count("C10", "hostile_streams_slower_than_60s_once", 1)
 		}
 		if v != nil {
 			reportViolation(rt, "C10", c, v)
